@@ -773,6 +773,39 @@ impl Driver for C08 {
             }
             out.case = case;
             out.eval();
+            if case == 24 {
+                // an abs whose sign is unknown needs its operand exactly, and an exact min/max needs finite bounds of its
+                // operands: with unbounded operands these rows can only be refused. If one of them compiles, the compiled
+                // rows are tested at a point the source excludes
+                let unb = VT::Real(f64::NEG_INFINITY, f64::INFINITY);
+                let (x, y) = (E::Var(0), E::Var(1));
+                let (con, bad): (Con, [i64; 2]) = match out.unit % 4 {
+                    0 => (Con { name: None, kind: CKind::Cmp(E::Abs(Box::new(E::Max(vec![x.clone(), y.clone()]))), Cmp::Le, E::Num(5.0)) }, [-100, -100]),
+                    1 => (Con { name: None, kind: CKind::Cmp(E::Num(5.0), Cmp::Ge, E::Abs(Box::new(E::Max(vec![x.clone(), y.clone()])))) }, [-100, -40]),
+                    2 => (Con { name: None, kind: CKind::Cmp(E::Abs(Box::new(E::Min(vec![x.clone(), y.clone()]))), Cmp::Le, E::Num(5.0)) }, [100, 100]),
+                    _ => (Con { name: None, kind: CKind::Cmp(E::Neg(Box::new(E::Abs(Box::new(E::Max(vec![x.clone(), y.clone()]))))), Cmp::Ge, E::Num(-5.0)) }, [-100, -100]),
+                };
+                let t = M { names: vec!["x".into(), "y".into()], types: vec![unb, unb], cons: vec![con], sense: Sense::Satisfy, obj: E::Num(0.0) };
+                match compile_m(&t) {
+                    Compiled::Rejected(e) if lin_err_kind(&e) == "MissingFiniteBounds" => out.tag("abs-over-extreme-without-bounds:refused"),
+                    Compiled::Ok(lm) => {
+                        if let Ok(xl) = XLin::from_rooc(&lm) {
+                            let p: Vec<Q> = bad.iter().map(|v| qi(*v)).collect();
+                            let fixed = crate::props::c01::fix_vector(&t, &xl, &p);
+                            if let Ok(Ext::Yes { .. }) | Ok(Ext::Unbounded) = extend(&xl, &fixed, &crate::props::c01::eps9(), false, 4000) {
+                                out.violation(
+                                    "exact-lowering-without-finite-bounds-compiled(relaxation)",
+                                    &format!("the row compiles although its operands have no finite bounds, and the compiled rows accept x = {}, y = {}, which the source excludes", bad[0], bad[1]),
+                                    json!({"model": t.show(), "linear_model": lm.to_string()}),
+                                );
+                                continue;
+                            }
+                        }
+                        out.tag("abs-over-extreme-without-bounds:compiled-exactly");
+                    }
+                    _ => out.tag("abs-over-extreme-without-bounds:other-error"),
+                }
+            }
             if let Some(t) = &zero_factor {
                 let mut trng = unit_rng(ctx, "C08t", out.unit * 100 + case);
                 let text = crate::text::model_text(t, &mut trng, crate::text::Style::plain());
